@@ -370,3 +370,68 @@ func init() {
 	reg("C18.immutable", checkC18)
 	reg("C18.race", checkC18Race)
 }
+
+// ---- tests on a member must not call it -----------------------------------------------------------------------
+
+type zQueue struct {
+	Data  []int
+	Calls int
+}
+
+func (q *zQueue) Pop() int {
+	q.Calls++
+	if len(q.Data) == 0 {
+		return 0
+	}
+	h := q.Data[0]
+	q.Data = q.Data[1:]
+	return h
+}
+func (q zQueue) Size() int { return len(q.Data) }
+
+type C18DefinedCase struct {
+	Which int `json:"which"`
+}
+
+var c18DefinedSrcs = []string{
+	"{% if q.Pop is defined %}{{ q.Data|join(',') }}{% endif %}",
+	"{{ q.Pop is not defined ? 'nd' : 'd' }}|{{ q.Data|join(',') }}",
+	"{{ q.Size is defined ? 'd' : 'u' }}|{{ q.Nope is defined ? 'd' : 'u' }}|{{ q.Data is defined ? 'd' : 'u' }}|{{ q.Calls is defined ? 'd' : 'u' }}|{{ q.Data|join(',') }}",
+	"{% for i in [1, 2, 3] %}{% if q.Pop is defined %}.{% endif %}{% endfor %}{{ q.Data|join(',') }}",
+}
+
+// checkC18Defined: asking whether a member exists does not call it: a method that changes the
+// caller's struct is not run by `is defined`, and two renders over the same data agree.
+func checkC18Defined(c C18DefinedCase) error {
+	src := c18DefinedSrcs[c.Which%len(c18DefinedSrcs)]
+	q0 := &zQueue{Data: []int{1, 2, 3}}
+	ctx := map[string]interface{}{"q": q0}
+	e := newEngine(map[string]string{"main": src})
+	r1 := render(e, "main", ctx)
+	r2 := render(e, "main", ctx)
+	if r1.Failed() || r2.Failed() || r1.Out != r2.Out {
+		return fmt.Errorf("%s rendered twice over the same context gives %v and %v", q(src), r1, r2)
+	}
+	if q0.Calls != 0 || len(q0.Data) != 3 {
+		return fmt.Errorf("%s only asks whether members exist, but the render called Pop %d time(s) on the caller's struct: Data is %v now", q(src), q0.Calls, q0.Data)
+	}
+	if c.Which%len(c18DefinedSrcs) == 2 && r1.Out != "d|u|d|d|1,2,3" {
+		return fmt.Errorf("%s renders %s, want \"d|u|d|d|1,2,3\" (Size and the fields exist, Nope does not)", q(src), q(r1.Out))
+	}
+	return nil
+}
+
+func TestC18Defined(t *testing.T) {
+	r := NewRec(t, "C18", "exhaustive: 4 templates that test members of a struct with `is defined` / `is not defined` (a pointer method that removes an element of the caller's slice, a value method, fields, an absent name; in conditions, ternaries and a loop), rendered twice over one context; oracle: the method is never called, the caller's struct is unchanged, both renders agree, absent members are not defined; all cases non-trivial")
+	defer r.Flush()
+	r.SetExhaustive()
+	for i := range c18DefinedSrcs {
+		c := C18DefinedCase{Which: i}
+		r.Case(fmt.Sprint(i), true, c18DefinedSrcs[i])
+		if err := checkC18Defined(c); err != nil {
+			r.FailEnum(t, "C18.defined", c, err)
+		}
+	}
+}
+
+func init() { reg("C18.defined", checkC18Defined) }
